@@ -145,6 +145,14 @@ func init() {
 		Rule: "second part: every 2- and 3-element subset of 13 property names that collide after normalisation (364 sibling sets), two schemas whose nested / anyOf-branch / definition types collide on their Go type name, and 6 --capitalization lists over 8 names; each unit must compile and every key must land in the field bound to that exact key. distinct_nontrivial = distinct (unit, document) pairs with a definite reference verdict"}
 }
 
+func init() {
+	families["C12"] = &rt.Family{Prop: "C12", Module: "MC_C14S", PackSize: 1,
+		More: []rt.Extra{
+			{Module: "MC_C02", Frac: frac(0.5, 1)}, {Module: "MC_C04", Frac: frac(0.05, 0.5)}, {Module: "MC_C08", Frac: frac(0.01, 0.1)},
+			{Module: "MC_C09", Frac: frac(0.3, 1)}, {Module: "MC_C11", Frac: frac(0.01, 0.1)},
+		}}
+}
+
 func hasMult(u *rt.Unit) bool {
 	b := fmt.Sprint(u.Raw["schema"], u.Raw["defs"])
 	return containsStr(b, "multipleOf")
@@ -162,6 +170,9 @@ func containsStr(s, sub string) bool {
 func Run(prop, tier string) int {
 	if prop == "C19" {
 		return rt.RunTotal(families[prop], tier)
+	}
+	if prop == "C12" {
+		return rt.RunDeterminism(families[prop], tier, "classes = seeded samples of the units of the C02, C04, C08, C09, C11, C14 families (single-file schemas) and 3 multi-file CLI scenarios with cross-file references, per-schema package / output / root-type mappings (ids also spelled with a trailing #), definitions and properties that collide on their Go name, options; variants = 8 (thorough 32) repeated in-process runs (Go re-randomises every map range), 6 (24) random permutations of the keys of every JSON object, 3 (8) separate processes, absolute vs relative arguments, the schema directory moved elsewhere; all variants of a class must produce byte-identical output. distinct_nontrivial = variants other than the first")
 	}
 	if prop == "C13" {
 		return rt.RunSpellings(tier, "classes = 3 base shapes (ids, schema-level and type-level definitions, $ref prefixes, dependent schemas, items / additionalProperties / property anything-schemas, property names YAML reads as number / boolean / null); variants = EVERY subset of the applicable re-spelling switches (id, definitions, #/definitions/, upper-case prefix, dependencies, type as one-element list, true for {}, legacy and current key both present) x {JSON, block YAML, flow YAML with unquoted special keys}; all variants of a class must produce byte-identical output. distinct_nontrivial = variants other than the canonical one")
